@@ -1,6 +1,7 @@
 package main
 
 import (
+	"go/constant"
 	"fmt"
 	"sort"
 	"strings"
@@ -276,6 +277,42 @@ func dbgCLI(c *Ctx, r *Report) {
 			fmt.Printf(" UNDECIDED %v", und)
 		}
 		fmt.Println()
+	}
+	show := func(title string, outs []argOutcome, und []string) {
+		fmt.Println(title)
+		for _, o := range outs {
+			var vs []string
+			for k, v := range o.Vals {
+				vs = append(vs, k+"="+v.String())
+			}
+			sort.Strings(vs)
+			var rs []string
+			for _, v := range o.Ret {
+				rs = append(rs, v.String())
+			}
+			fmt.Printf("   %s vals=%v events=%v ret=%v\n", o.Result, vs, o.Events, rs)
+		}
+		if len(und) > 0 {
+			fmt.Println("   UNDECIDED", und)
+		}
+	}
+	o1, u1 := c.argsTail(fd, nil, nil)
+	show("tail rest=[] no flags", o1, u1)
+	o2, u2 := c.argsTail(fd, []string{"x.bcl"}, map[string]Value{"bdump": constV(constant.MakeBool(true))})
+	show("tail rest=[x.bcl] --bdump", o2, u2)
+	o3, u3 := c.argsTail(fd, []string{"a", "b"}, nil)
+	show("tail rest=[a b]", o3, u3)
+	if _, od := c.findIn(c.Cmd, "open"); od != nil {
+		o, u := c.cliInterp(od, cliOpts{args: []Value{constV(constant.MakeString("-"))}, fields: map[string]Value{"file": constV(constant.MakeString("-"))}, zero: true})
+		show("open file=-", o, u)
+	}
+	if _, md := c.findIn(c.Cmd, "main"); md != nil {
+		o, u := c.cliInterp(md, cliOpts{calls: map[string]Value{"cmd.parseArgs": {K: vTuple, Tup: []Value{tagV("pa", nil), tagV("errv", "usage")}}}})
+		show("main: parseArgs fails", o, u)
+		o, u = c.cliInterp(md, cliOpts{calls: map[string]Value{"cmd.parseArgs": {K: vTuple, Tup: []Value{tagV("pa", nil), tagV("nil", nil)}}, "cmd.run": tagV("errv", "run")}, fields: map[string]Value{"help": tagV("nil", nil)}})
+		show("main: run fails", o, u)
+		o, u = c.cliInterp(md, cliOpts{calls: map[string]Value{"cmd.parseArgs": {K: vTuple, Tup: []Value{tagV("pa", nil), tagV("nil", nil)}}, "cmd.run": tagV("nil", nil)}, fields: map[string]Value{"help": tagV("helpfn", nil)}})
+		show("main: help", o, u)
 	}
 	r.ok("dbg", "x", "")
 }
